@@ -116,6 +116,66 @@ Theorem C05_set_message_reply : forall s typ mid tok code ro rc tok' o p,
 Proof. exact set_message_reply. Qed.
 Print Assumptions C05_set_message_reply.
 
+(* ================= part 1b: the request message is the handler's while it runs ================= *)
+(* handleReq hands the received *pool.Message itself to the handler.  [ruse] is what the handler does with that object
+   before it returns: nothing, re-labelling it (r.SetType / r.SetMessageID / r.SetToken: a forwarding proxy; another
+   connection's Do), or hijacking it and releasing it to the pool (Reset: type Unset, message ID -1).  [step_u rp] is the
+   processing of one copy with the request's type and message ID read at [rp]: RBefore = the code (locals taken before
+   cc.handle), RAfter = the variant that reads req.Type()/req.MessageID() when it calls processResponse. *)
+
+(* The code does not depend on what the handler does with the request: a copy is processed as [step] processes it,
+   and so is every history. *)
+Theorem C05_request_is_the_handlers : forall evs s,
+  urun RBefore s evs = run s (map erase_use evs).
+Proof. exact urun_erase. Qed.
+Print Assumptions C05_request_is_the_handlers.
+
+(* Hence C05 for all handler behaviours INCLUDING every use of the request message: first copy handled (its handler
+   uses the request as u), any history of at most the lifetime (handlers using their requests in any way), another copy
+   with the same message ID: not handed to the handler, answered with one datagram of the same code, token, options and
+   payload carrying the copy's ID; and the acknowledgement of a confirmable first copy carries the request's ID. *)
+Theorem C05_once_any_request_use : forall s u typ mid tok code ro b s1 o1 evs u2 typ2 tok2 code2 ro2 b2,
+  step_u RBefore s u typ mid tok code ro b = (s1, o1) ->
+  is_cacheable_typ typ = true -> o_called o1 = true -> (typ = CON \/ o_out o1 <> []) ->
+  ages_ok (map erase_use evs) -> total_age (map erase_use evs) <= LIFETIME ->
+  is_cacheable_typ typ2 = true ->
+  let o2 := snd (step_u RBefore (fst (urun RBefore s1 evs)) u2 typ2 mid tok2 code2 ro2 b2) in
+  o_called o2 = false /\
+  exists r1 r2, o_out o1 = [r1] /\ o_out o2 = [r2] /\ same_content r2 r1 /\ w_mid r2 = mid /\
+                w_typ r2 = (if typ2 =? CON then ACK else NON) /\
+                (typ = CON -> w_typ r1 = ACK /\ w_mid r1 = mid).
+Proof. exact dedup_once_any_use. Qed.
+Print Assumptions C05_once_any_request_use.
+
+(* The late-reading variant is the code exactly as long as handlers keep the request's labels ... *)
+Theorem C05_late_read_same_if_kept : forall s u typ mid tok code ro b,
+  use_req u {| r_typ := typ; r_mid := mid |} = {| r_typ := typ; r_mid := mid |} ->
+  step_u RAfter s u typ mid tok code ro b = step_u RBefore s u typ mid tok code ro b.
+Proof. exact late_read_same_if_kept. Qed.
+Print Assumptions C05_late_read_same_if_kept.
+
+(* ... and violates the property otherwise: from ANY state in which the ID is fresh, when the handler leaves the request
+   with another message ID (re-labelled, or released: -1), every later copy reaches the handler again. *)
+Theorem C05_late_read_reexecutes : forall s u typ mid tok code ro b u2 tok2 code2 ro2 b2,
+  req_lookup typ mid (cache s) = None ->
+  r_mid (use_req u {| r_typ := typ; r_mid := mid |}) <> mid ->
+  let s1 := fst (step_u RAfter s u typ mid tok code ro b) in
+  o_called (snd (step_u RAfter s1 u2 typ mid tok2 code2 ro2 b2)) = true.
+Proof. exact late_read_reexecutes. Qed.
+Print Assumptions C05_late_read_reexecutes.
+
+(* Witnesses (also the non-vacuity example of this part): CON GET, ID 4660, handler re-labels the request with the
+   upstream ID 9 / releases it / re-labels only its type; the same datagram again.  Per copy: (handler called, [(type, ID)
+   of the datagram written]). *)
+Theorem C05_late_read_refuted :
+  demo_view RBefore (URelabel CON 9) = [(true, [(ACK, 4660)]); (false, [(ACK, 4660)])] /\
+  demo_view RBefore URelease = [(true, [(ACK, 4660)]); (false, [(ACK, 4660)])] /\
+  demo_view RAfter (URelabel CON 9) = [(true, [(ACK, 9)]); (true, [(ACK, 9)])] /\
+  demo_view RAfter URelease = [(true, [(CON, 36864)]); (true, [(CON, 36866)])] /\
+  demo_view RAfter (URelabel NON 4660) = [(true, [(CON, 36864)]); (false, [(ACK, 4660)])].
+Proof. exact late_read_refuted. Qed.
+Print Assumptions C05_late_read_refuted.
+
 (* ================= part 2: threads, all schedules ================= *)
 (* One thread per received copy.  Its program (Dedup.Conc.act) is the sequence of atomic accesses of
    udp/client.Conn to the shared state: own-ID check; Lock(mid) -- not enabled while the ID is held;
